@@ -101,7 +101,8 @@ def extractParts (sub : S) (f : DecFmt) : Parts :=
 def validateParts (p : Parts) (f : DecFmt) : Bool :=
   let percents := count f.percent p.picture
   let permilles := count f.permille p.picture
-  let exponents := count [f.expSep] p.picture
+  -- counted in the active part only: in the prefix or suffix the character is passive text (F37)
+  let exponents := count [f.expSep] p.active
   let intDigitThenOptional :=
     match indexWhere f.isDecimalDigit p.integer with
     | some i => (p.integer.drop (i + 1)).contains f.digit
